@@ -474,9 +474,15 @@ theorem convertResults_trailing_error : ∀ (init : List Val) (outs : List Ty) (
 
 /-! ### nested results -/
 
-theorem convertSeq_toList (t : Ty) : ∀ (xs : Vals),
-    (convertSeq t xs).toList = xs.toList.map (convertResultNumber t)
-  | .nil => by simp [convertSeq, Vals.toList]
-  | .cons v vs => by simp [convertSeq, Vals.toList, convertSeq_toList t vs]
+theorem demandedSeq_toList (t : Ty) : ∀ (xs : Vals),
+    (demandedSeq t xs).toList = xs.toList.map (demandedResult t)
+  | .nil => by simp [demandedSeq, Vals.toList]
+  | .cons v vs => by simp [demandedSeq, Vals.toList, demandedSeq_toList t vs]
+
+theorem numericOf_seq (t' t : Ty) (xs : Vals) : numericOf t' (.seq t xs) = none := by
+  cases t' <;> simp [numericOf]
+
+theorem numericOf_gomap (t' kt vt : Ty) (kvs : Vals) : numericOf t' (.gomap kt vt kvs) = none := by
+  cases t' <;> simp [numericOf]
 
 end Ecal.Bridge
